@@ -306,8 +306,8 @@ for n, w, t in (("c09_mp_a1", "mpmc N=2, skeleton 1 (send send clone recv0 recv1
                 ("c09_bc_a2", "broadcast N=2, skeleton 2 (send send add_stream recv0 recv1 send unsubscribe send recv0 send)", "quick"),
                 ("c09_mp_a3", "mpmc N=1, skeleton 3 (send clone_tx send1 drop_tx1 recv send drop_tx0 recv recv send)", "quick"),
                 ("c09_bc_a3", "broadcast N=2, skeleton 3", "thorough"),
-                ("c09_mp_a4", "mpmc N=2, skeleton 4 (send into_single view send view into_multi clone recv0 into_single recv0)", "quick"),
-                ("c09_bc_a4", "broadcast N=1, skeleton 4", "thorough"),
+                ("c09_mp_a4", "mpmc N=1, skeleton 4 (send into_single view send view into_multi clone recv0 into_single recv0)", "quick"),
+                ("c09_bc_a4", "broadcast N=2, skeleton 4", "thorough"),
                 ("c09_bc_a5", "broadcast N=2, skeleton 5 (send add_stream recv0 drop_rx0 send send recv1 send drop_rx1 send)", "quick")):
     H(n, S, "C09", ["C09", "C13", "C07", "C11"], t, "10-call skeleton, every traffic call (send, receive, view) optional by solver choice, structural calls always vs the reference model: " + w,
       "10 steps, sequential", rules=SEQRULES)
@@ -436,3 +436,4 @@ for n, w in (("c09_bc_a2w", "broadcast N=1, skeleton 2w (send recv0 send add_str
     H(n, S, "C09", ["C09", "C10", "C11", "C13"], "quick", "10-call skeleton, every traffic call optional by solver choice, structural calls always, vs the reference model: " + w,
       "10 steps, sequential", rules=SEQRULES)
     _opt(n, "the history saw Disconnected")
+_opt("c09_bc_a4", "the history wrapped the ring", "the history hit Full")
